@@ -262,6 +262,11 @@ async fn run_history(case: &C18Case, obs: &mut Obs) {
 							}
 						}
 					}
+					How::Refuse | How::Malformed(_) | How::DuplicateSubId if !cancelled && !matches!(s.task.take().and_then(|t| t.now_or_never()), Some(Ok(Err(_)))) => {
+						// whatever the reason, a subscribe call that was answered and not accepted completes - with an error
+						fail_sig.get_or_insert(("c18/unaccepted-subscribe-did-not-fail".into(), format!("subscribe call #{i} answered {body}: its future is still pending or did not return an error")));
+						s.st = SubSt::Done;
+					}
 					How::Refuse => {
 						s.st = SubSt::Done;
 						s.ended_by = "refused";
